@@ -259,6 +259,22 @@ arrays (the histories only use values float32 represents exactly), which must be
 every later operation; needs a rectangular ensemble -/
 def reloaded (e : Ens) : Option Ens := if e.rect then some e else none
 
+/-- `ConformerEnsemble(atoms, n_conformers=nC, coords=…, atomic_charges=…, weights=…)`: the arrays are allocated and then FILLED
+from the arguments (`arr[:] = arg`, with numpy's broadcasting: one geometry for all conformers, one charge row, one weight);
+an argument that does not fit makes the constructor raise -/
+def optSet {α : Type} (f : Ens → α → Option Ens) (e : Ens) : Option α → Option Ens
+  | none => some e
+  | some a => f e a
+
+def ctorKw (nA nC : Nat) (cs : Option (List Conf)) (qs : Option (List (List Num))) (ws : Option (List Num)) : Option Ens :=
+  (optSet setCoordsB (alloc nA nC) cs).bind (fun e1 => (optSet setChargesB e1 qs).bind (fun e2 => optSet setWeightsB e2 ws))
+
+/-- Python's integer indexing: `-n … n-1` are the rows, everything else is an IndexError -/
+def normIdx (n : Nat) (i : Int) : Option Nat :=
+  if 0 ≤ i ∧ i < n then some i.toNat
+  else if i < 0 ∧ -(n : Int) ≤ i then some (i + n).toNat
+  else none
+
 /-! ### conformers: `ens[i]` is the index `i` -/
 
 /-- what a conformer shows: its coordinate rows and its partial charges (everything else is the parent's) -/
@@ -429,6 +445,12 @@ inductive Op
   | dumpKept (j : Nat)
   /-- `lib[k] = ens; ens = lib[k]`: go on with the deserialised object -/
   | reload
+  /-- the constructor with array arguments (`none` = not given) -/
+  | ctorAtomsKw (nA nC : Nat) (cs : Option (List Conf)) (qs : Option (List (List Num))) (ws : Option (List Num))
+  /-- `ens[i]` for any Python / numpy integer `i`, then read the view -/
+  | readAt (i : Int)
+  /-- `ens[i].coords = rows` for any integer `i` -/
+  | writeAt (i : Int) (c : Conf)
   deriving Repr
 
 inductive Out
@@ -508,6 +530,21 @@ def step (v : Variant) (w : World) : Op → World × Out
   | .setCoords cs => upd w (setCoordsB w.ens cs)
   | .setWeights ws => upd w (setWeightsB w.ens ws)
   | .setCharges qs => upd w (setChargesB w.ens qs)
+  | .ctorAtomsKw nA nC cs qs ws =>
+    match ctorKw nA nC cs qs ws with
+    | some e => (rebindIn w e, .ok)
+    | none => (w, .err)
+  | .readAt i =>
+    match normIdx w.ens.nC i with
+    | some j =>
+      match readConf w.ens j with
+      | some x => (w, .view x)
+      | none => (w, .err)
+    | none => (w, .err)
+  | .writeAt i c =>
+    match normIdx w.ens.nC i with
+    | some j => upd w (writeCoords w.ens j c)
+    | none => (w, .err)
   | .reload =>
     match reloaded w.ens with
     | some e => (rebindIn w e, .ok)
